@@ -427,8 +427,6 @@ def make_items(tier: str, seed: int) -> list[dict]:
         for c in chunk_grid(n, big=thorough):
             if not thorough and n >= 8191 and c in (2, 3, 10):
                 continue  # kept for the thorough tier (cost once the loop is repaired)
-            if thorough and n >= 100000 and c < 8:
-                continue
             prog = [x for x in CALLS if x == 'pix' or rng.random() < 0.5]
             prog = [prog[i] for i in rng.permutation(len(prog))]
             bos = orders if thorough else (orders[int(rng.integers(0, 3))],)
@@ -474,7 +472,7 @@ def make_items(tier: str, seed: int) -> list[dict]:
                 program=[CALLS[i] for i in rng.permutation(5)],
                 npix=int(rng.choice([0, 3, 50])))]})
     # (F) random mixtures
-    for _ in range(60 if not thorough else 1500):
+    for _ in range(60 if not thorough else 4000):
         prog = [x for x in CALLS if rng.random() < 0.7]
         prog = [prog[i] for i in rng.permutation(len(prog))]
         n = int(rng.choice([0, 1, 2, 5, 9, 10, 11, 17, 64, 300, 1000]))
